@@ -221,10 +221,10 @@ def varSpecAsInit : P Sx :=
             | .inl vs => sxEnumVals vs none))
   <|> (do let a ← arraySpecification; pure (sxArrayInit (a, [])))
   <|> (do let _ ← tok "String"
-          let length ← opt (do ws; let _ ← tok "LeftBracket"; ws; let l ← integer; let _ ← tok "RightBracket"; pure l)
+          let length ← opt (do ws; let _ ← tok "LeftBracket"; ws; let l ← integer; ws; let _ ← tok "RightBracket"; pure l)
           pure (sxStringInit length "String" none))
   <|> (do let _ ← tok "WString"
-          let length ← opt (do ws; let _ ← tok "LeftBracket"; ws; let l ← integer; let _ ← tok "RightBracket"; pure l)
+          let length ← opt (do ws; let _ ← tok "LeftBracket"; ws; let l ← integer; ws; let _ ← tok "RightBracket"; pure l)
           pure (sxStringInit length "WString" none))
   <|> (do let et ← elementaryTypeName; pure (sxSimpleInit (elementaryAsType et) none))
   <|> (do let id ← typeName; pure (Sx.t "LateResolvedType" [id]))
